@@ -61,8 +61,8 @@ def body(c):
                         constants={"NoZeroHull": "FALSE", "Points": "{}", "GroupLen": 0, "GShapes": "{}"})
     w = copy.deepcopy(next(t for t in wide if t[0]["fmt"] == "float32" and t[0]["bits"] == 4 and len(t[0]["groups"][0]["x"]) > 1))
     g0 = w[0]["groups"][0]
-    g0["dq"][0] = g0["x"][1] if g0["x"][1] != g0["x"][0] else {"s": 1, "m": [1, 1, 1, 1, 1, 1, 1, 1, 1]}
-    c.negative_controls("Trace_QNum", [("wide-dq-swapped", w)], constants=devs)
+    g0["dq"][0] = {"s": 1, "m": [0] * 24 + [1]}       # 2^336 units away: far outside any tolerance
+    c.negative_controls("Trace_QNum", [("wide-dq-far-off", w)], constants=devs)
     c.assumptions += ["rank-1 weights: one scale for the whole vector (DESIGN.md section 9)",
                       "wide domain: tolerance hull*11*Q*u + 4*Q*eta (DESIGN.md 7.1); lattice domain: zero tolerance"]
 
